@@ -198,3 +198,77 @@ def audit_lifts(ctx):
         if not m or "Closed under the global context" not in m.group(1):
             ctx.tie_broken.append(f"axioms: {t} (Proofs/RunLift.v) is not closed under the global context")
     ctx.notes.append("Proofs/RunLift.v: " + ", ".join(LIFT_THEOREMS) + " closed under the global context")
+
+
+# ---- manifest shape families (C04: report(dry) vs report(real) must agree on every shape) ------------------------------------
+# layouts per manifest kind (how the requirements are written) x shape transforms (how the file is laid out)
+MANIFEST_LAYOUTS = {
+    "requirements.txt": {
+        "list": "requests\nclick>=8\n",
+        "pinned_with_options": "--index-url https://pypi.org/simple\nrequests==2.31.0\nclick>=8 ; python_version >= '3.8'\n",
+    },
+    "setup.cfg": {
+        "newline_last": "[metadata]\nname = demo\n\n[options]\npackages = find:\ninstall_requires =\n    requests\n    click\n",
+        "newline_then_section": "[metadata]\nname = demo\n\n[options]\ninstall_requires =\n    requests\n    click\n\n[options.extras_require]\ndev =\n    pytest\n",
+        "inline_last": "[metadata]\nname = demo\n\n[options]\ninstall_requires = requests, click\n",
+        "inline_then_section": "[metadata]\nname = demo\n\n[options]\ninstall_requires = requests, click\npython_requires = >=3.8\n\n[flake8]\nmax-line-length = 100\n",
+    },
+    "pyproject.toml": {
+        "array_multiline": "[project]\nname = \"demo\"\nversion = \"0.1\"\ndependencies = [\n    \"requests\",\n    \"click>=8\",\n]\n",
+        "array_inline": "[project]\nname = \"demo\"\nversion = \"0.1\"\ndependencies = [\"requests\", \"click>=8\"]\n",
+        "poetry": "[tool.poetry]\nname = \"demo\"\nversion = \"0.1\"\n\n[tool.poetry.dependencies]\npython = \"^3.10\"\nrequests = \"^2.31\"\n",
+    },
+    "setup.py": {
+        "list_multiline": "from setuptools import setup\n\nsetup(\n    name=\"demo\",\n    install_requires=[\n        \"requests\",\n        \"click\",\n    ],\n)\n",
+        "list_inline": "from setuptools import setup\n\nsetup(name=\"demo\", install_requires=[\"requests\", \"click\"])\n",
+    },
+}
+# another spelling of each dependency a codemod may add (PEP 503: case, `-`/`_`/`.` runs are equivalent)
+OTHER_SPELLING = {"fickling": "Fickling", "defusedxml": "DefusedXML", "flask-wtf": "Flask_WTF", "security": "Security"}
+COMMENT = {"requirements.txt": "# pinned by ops\n", "setup.cfg": "# managed by hand\n", "pyproject.toml": "# managed by hand\n",
+           "setup.py": "# managed by hand\n"}
+MANIFEST_SHAPES = ["plain", "no_final_newline", "trailing_blank_lines", "whitespace_last_line", "crlf", "comments", "other_spelling"]
+
+
+def _declare(kind, layout, text, name):
+    """add `name` as an already declared requirement, in the style of the layout"""
+    if kind == "requirements.txt":
+        return text + name + "==1.0\n" if text.endswith("\n") else text + "\n" + name + "==1.0"
+    if kind == "setup.cfg":
+        if layout.startswith("newline"):
+            return text.replace("    click\n", "    click\n    " + name + "\n", 1)
+        return text.replace("requests, click", "requests, click, " + name, 1)
+    if kind == "pyproject.toml":
+        if layout == "poetry":
+            return text.replace('requests = "^2.31"\n', 'requests = "^2.31"\n' + name + ' = "*"\n', 1)
+        if layout == "array_inline":
+            return text.replace('"click>=8"]', '"click>=8", "' + name + '"]', 1)
+        return text.replace('    "click>=8",\n', '    "click>=8",\n    "' + name + '",\n', 1)
+    if layout == "list_inline":
+        return text.replace('"click"]', '"click", "' + name + '"]', 1)
+    return text.replace('        "click",\n', '        "click",\n        "' + name + '",\n', 1)
+
+
+def shape_manifest(kind, layout, shape, dep=None):
+    """one member of the family: the layout's text under a shape transform"""
+    text = MANIFEST_LAYOUTS[kind][layout]
+    if shape == "no_final_newline":
+        text = text.rstrip("\n")
+    elif shape == "trailing_blank_lines":
+        text = text + "\n\n"
+    elif shape == "whitespace_last_line":
+        text = text + "    "
+    elif shape == "crlf":
+        text = text.replace("\n", "\r\n")
+    elif shape == "comments":
+        lines = text.splitlines(True)
+        text = COMMENT[kind] + "".join(lines[:-1]) + lines[-1].rstrip("\n") + "  # keep\n" if kind in ("requirements.txt",) \
+            else COMMENT[kind] + text + COMMENT[kind]
+    elif shape == "other_spelling":
+        text = _declare(kind, layout, text, OTHER_SPELLING.get((dep or "security").lower(), (dep or "security").upper()))
+    return text
+
+
+def manifest_family():
+    """every (kind, layout, shape)"""
+    return [(k, l, sh) for k, layouts in MANIFEST_LAYOUTS.items() for l in layouts for sh in MANIFEST_SHAPES]
